@@ -55,29 +55,40 @@ package drpcmetadata
 
 // ---- decoder: total, bounds-safe, and equal to the reference layout
 
-// one length-prefixed field with tag t at the front of b: status 0 ok, 1 malformed
-//@ spec fldOK(b []byte, t byte) bool = len(b) >= 1 && b[0] == t && vOK(b[1:]) && vVal(b[1:], 0) <= uint64(len(b) - 1 - vAdv(b[1:]))
-//@ spec fldHdr(b []byte) int = 1 + vAdv(b[1:])
+// The decoder's reference, written in the shape of the wire description: a field is a tag byte, a
+// varint length and that many bytes. rdRem is what remains after a varint (as drpcwire.ReadVarint
+// returns it), fldBody what follows the tag and the length, fldData the field's bytes, fldRest what
+// follows the field.
+//@ spec rdRem(x []byte) []byte = ite(vN(x, 0) == 0, x, x[vAdv(x):])
+//@ spec fldBody(b []byte) []byte = rdRem(b[1:])
 //@ spec fldLen(b []byte) int = int(vVal(b[1:], 0))
-//@ spec fldRest(b []byte) []byte = b[fldHdr(b) + fldLen(b):]
+//@ spec fldOK(b []byte, t byte) bool = len(b) >= 1 && b[0] == t && vOK(b[1:]) && vVal(b[1:], 0) <= uint64(len(fldBody(b)))
+//@ spec fldData(b []byte) []byte = fldBody(b)[:fldLen(b)]
+//@ spec fldRest(b []byte) []byte = fldBody(b)[fldLen(b):]
 //@ spec kvOK(b []byte) bool = fldOK(b, 10) && fldOK(fldRest(b), 18) && len(fldRest(fldRest(b))) == 0
+//@ spec entOK(b []byte) bool = fldOK(b, 10) && kvOK(fldData(b))
 
+// readKeyValue accepts exactly the byte strings of the inner layout and returns the key and value
+// bytes (sub-slices of the input) the layout names.
 //@ func readKeyValue
 //@   mode int
 //@   props C11 C13
-//@   ensures [key]   ok ==> arr(key) == arr(buf) && off(key) == off(buf) + fldHdr(buf) && len(key) == fldLen(buf) && fldOK(buf, 10)
-//@   ensures [value] ok ==> arr(value) == arr(buf) && off(buf) <= off(value) && off(value) + len(value) == off(buf) + len(buf)
+//@   ensures [accepts] ok == kvOK(buf)
+//@   ensures [key]   ok ==> sameSlice(key, fldData(buf))
+//@   ensures [value] ok ==> sameSlice(value, fldData(fldRest(buf)))
 //@   ensures [err]   ok ==> err == nil
 
-//@ spec entOK(b []byte) bool = fldOK(b, 10) && kvOK(b[fldHdr(b):fldHdr(b) + fldLen(b)])
-
+// readEntry accepts exactly the byte strings that start with one entry of the layout; key and value
+// are the sub-slices the layout names, rem is what follows the entry.
 //@ func readEntry
 //@   mode int
 //@   props C11 C13
-//@   ensures [rem]  ok ==> arr(rem) == arr(buf) && off(rem) == off(buf) + fldHdr(buf) + fldLen(buf) && len(rem) == len(buf) - fldHdr(buf) - fldLen(buf)
-//@   ensures [kv]   ok ==> arr(key) == arr(buf) && arr(value) == arr(buf) && len(key) <= len(buf) && len(value) <= len(buf)
-//@   ensures [err]  ok ==> err == nil
-//@   ensures [progress] ok ==> len(rem) < len(buf)
+//@   ensures [accepts] ok == entOK(buf)
+//@   ensures [key]   ok ==> sameSlice(key, fldData(fldData(buf)))
+//@   ensures [value] ok ==> sameSlice(value, fldData(fldRest(fldData(buf))))
+//@   ensures [rem]   ok ==> sameSlice(rem, fldRest(buf))
+//@   ensures [err]   ok ==> err == nil
+//@   ensures [progress] ok ==> len(rem) < len(buf) && arr(rem) == arr(buf) && arr(key) == arr(buf) && arr(value) == arr(buf)
 
 // Decode returns a map or an error for every input; it terminates because every entry consumes
 // at least two bytes.
@@ -88,6 +99,38 @@ package drpcmetadata
 //@   loop 1 invariant [buf] arr(buf) == arr(buf0) || len(buf) == 0
 //@   loop 1 decreases len(buf)
 //@   ensures [total] result1 != nil ==> result0 == nil
+//@   site mapstore:out assert [C11.stores-decoded-pair] bytesEq(arg0, key) && bytesEq(arg1, value) && ok && err == nil
+//@   ghost after:readEntry rk = ret1
+//@   ghost after:readEntry rv = ret2
+//@   site mapstore:out assert [C11.pair-from-entry] sameSlice(key, rk) && sameSlice(value, rv)
+
+// appendEntry's output, read back: the bytes appendEntry adds after buf are accepted by the decoder's
+// reference as one entry whose key and value bytes are the given strings (composition of
+// appendEntry's postcondition with L.entryRT; the lemma's hypotheses are exactly that postcondition
+// shifted to the entry's start).
+//@ lemma L.appendThenRead(r []byte, b int, key string, value string)
+//@   mode int
+//@   props C11
+//@   let lk = len(key)
+//@   let lv = len(value)
+//@   let inner = strSize(lk) + strSize(lv)
+//@   let n0 = vEncLen(uint64(inner))
+//@   let n1 = vEncLen(uint64(lk))
+//@   let n2 = vEncLen(uint64(lv))
+//@   reveal vEncLen
+//@   requires 0 <= b && lk <= 1099511627776 && lv <= 1099511627776 && len(r) == b + 1 + n0 + inner
+//@   requires r[b] == 10 && vEncAt(r, b + 1, uint64(inner), n0)
+//@   requires r[b + 1 + n0] == 10 && vEncAt(r, b + 2 + n0, uint64(lk), n1)
+//@   requires forall i int :: 0 <= i && i < lk ==> r[b + 2 + n0 + n1 + i] == key[i]
+//@   requires r[b + 2 + n0 + n1 + lk] == 18 && vEncAt(r, b + 3 + n0 + n1 + lk, uint64(lv), n2)
+//@   requires forall i int :: 0 <= i && i < lv ==> r[b + 3 + n0 + n1 + lk + n2 + i] == value[i]
+//@   use L.entryRT(r[b:], key, value)
+//@   ensures [accepted] entOK(r[b:])
+//@   ensures [keylen]   len(fldData(fldData(r[b:]))) == lk
+//@   ensures [key]      forall i int :: 0 <= i && i < lk ==> fldData(fldData(r[b:]))[i] == key[i]
+//@   ensures [valuelen] len(fldData(fldRest(fldData(r[b:])))) == lv
+//@   ensures [value]    forall i int :: 0 <= i && i < lv ==> fldData(fldRest(fldData(r[b:])))[i] == value[i]
+//@   ensures [consumed] len(fldRest(r[b:])) == 0
 
 //@ func AddPairs
 //@   props C11
@@ -105,3 +148,35 @@ package drpcmetadata
 //@   props C11 C13
 //@   requires ctx != nil
 //@   ensures [ctx] result != nil
+
+// Entry round trip: bytes laid out as appendEntry's postcondition says are accepted by the decoder's
+// reference and decode to the same key and value bytes, consuming exactly the entry (for every key
+// and value; lengths below 2^40 so that sizes do not wrap).
+//@ lemma L.entryRT(s []byte, key string, value string)
+//@   mode int
+//@   props C11 C18
+//@   let lk = len(key)
+//@   let lv = len(value)
+//@   let inner = strSize(lk) + strSize(lv)
+//@   let n0 = vEncLen(uint64(inner))
+//@   let n1 = vEncLen(uint64(lk))
+//@   let n2 = vEncLen(uint64(lv))
+//@   reveal vEncLen
+//@   requires lk <= 1099511627776 && lv <= 1099511627776 && len(s) >= 1 + n0 + inner
+//@   requires s[0] == 10 && vEncAt(s, 1, uint64(inner), n0)
+//@   requires s[1 + n0] == 10 && vEncAt(s, 2 + n0, uint64(lk), n1)
+//@   requires forall i int :: 0 <= i && i < lk ==> s[2 + n0 + n1 + i] == key[i]
+//@   requires s[2 + n0 + n1 + lk] == 18 && vEncAt(s, 3 + n0 + n1 + lk, uint64(lv), n2)
+//@   requires forall i int :: 0 <= i && i < lv ==> s[3 + n0 + n1 + lk + n2 + i] == value[i]
+//@   use L.encAtUnroll(s, 1, uint64(inner), n0)
+//@   use L.varintRT(s[1:], uint64(inner))
+//@   use L.encAtUnroll(s, 2 + n0, uint64(lk), n1)
+//@   use L.varintRT(fldData(s)[1:], uint64(lk))
+//@   use L.encAtUnroll(s, 3 + n0 + n1 + lk, uint64(lv), n2)
+//@   use L.varintRT(fldRest(fldData(s))[1:], uint64(lv))
+//@   ensures [accepted] entOK(s)
+//@   ensures [keylen]   len(fldData(fldData(s))) == lk
+//@   ensures [key]      forall i int :: 0 <= i && i < lk ==> fldData(fldData(s))[i] == key[i]
+//@   ensures [valuelen] len(fldData(fldRest(fldData(s)))) == lv
+//@   ensures [value]    forall i int :: 0 <= i && i < lv ==> fldData(fldRest(fldData(s)))[i] == value[i]
+//@   ensures [rest]  len(fldRest(s)) == len(s) - (1 + n0 + inner) && off(fldRest(s)) == off(s) + 1 + n0 + inner
